@@ -102,5 +102,5 @@ def run(ctx):
     ctx.explore_many([(h, 1 if q else 2) for h in real], cap=400_000 if q else 20_000_000, workers=fsops.fs_workers(ctx))
     ctx.explore_many([(h, 1 if q else 2) for h in hs], cap=3_000_000 if q else 60_000_000)
     if q:
-        two = [h for h in hs if h.name.split()[1].startswith(("2t-run-stop", "2t-run-unschedule", "re-run-stop"))]
+        two = [h for h in hs if h.name.split()[1].startswith(("2t-run-stop", "2t-run-unschedule", "re-run-stop", "2t-new-start|start"))]
         ctx.explore_many([(h, 2) for h in two], cap=2_000_000, selftest=False)
